@@ -213,6 +213,26 @@ def run(repo, rep, tier):
                        key=f"C01.R3@{fn}:{type(n).__name__}:{U(n)[:50]}")
         rep.ob("C01.R3", f, f"{fn}: {n_ops} arithmetic operations inspected, all exact up to one final conversion",
                not any(o.rule == "C01.R3" and not o.ok and fn in o.construct for o in rep.obs), "", key=f"C01.R3@{fn}:summary")
+    # the integer mantissa keeps every significant digit of the float (repr needs at most 17)
+    pf = repo.func("cell.py", "_pack_decimal128")
+    kk = None
+    knode = pf
+    for n in body_walk(pf):
+        if isinstance(n, ast.Assign) and U(n.targets[0]) == "exp" and isinstance(n.value, ast.BinOp) and isinstance(n.value.op, ast.Sub) and "adjusted()" in U(n.value.left):
+            kk = try_const(n.value.right, repo.consts)
+            knode = n
+        if isinstance(n, ast.AugAssign) and U(n.target) == "exp" and isinstance(n.op, ast.Sub) and kk is None and isinstance(try_const(n.value, repo.consts), int):
+            prev = [a for a in body_walk(pf) if isinstance(a, ast.Assign) and U(a.targets[0]) == "exp" and "adjusted()" in U(a.value)]
+            if prev:
+                kk = try_const(n.value, repo.consts)
+                knode = n
+    if kk is not None:
+        ok = isinstance(kk, int) and 16 <= kk <= 33
+        rep.ob("C01.R3", knode, f"_pack_decimal128: mantissa scaled to {kk + 1 if isinstance(kk, int) else kk} significant digits", ok,
+               "" if ok else f"`int(dec.scaleb(...))` truncates: with {kk + 1 if isinstance(kk, int) else kk} digits kept, floats whose shortest repr has 17 digits (29.999999999999996) lose their last digit on every save",
+               key="C01.R3@_pack_decimal128:digits")
+    else:
+        rep.info("C01.R3", "_pack_decimal128: digit count of the scaled mantissa not recognised (no verdict)")
     # bias and field placement agree between pack and unpack
     pk, up = U(repo.func("cell.py", "_pack_decimal128")).replace(" ", ""), U(repo.func("cell.py", "_unpack_decimal128")).replace(" ", "")
     ok = "buffer[15]|=exp>>7" in pk and "buffer[14]|=(exp&127)<<1" in pk and "(buffer[15]&127)<<7|buffer[14]>>1" in up and "DECIMAL128_BIAS" in pk and "-DECIMAL128_BIAS" in up
@@ -257,6 +277,7 @@ VARIANTS = [
     M("date-single-precision", "cell.py", 'value = pack("<d", float(date_delta.total_seconds()))', 'value = pack("<f", float(date_delta.total_seconds()))', "C01.R2"),
     M("revert-fix-unpack-float-pow", "cell.py", '    return float(f"{mantissa}E{exp}")', "    value = mantissa * 10**exp\n    return float(value)", "C01.R3"),
     M("revert-fix-pack-division", "cell.py", "        mantissa >>= 8", "        mantissa = int(mantissa / 256)", "C01.R3"),
+    M("mantissa-16-digits", "cell.py", "exp = (dec.adjusted() if dec != 0 else 0) - 16", "exp = (dec.adjusted() if dec != 0 else 0) - MAX_SIGNIFICANT_DIGITS", "C01.R3"),
     M("duration-days", "cell.py", 'value = pack("<d", float(self.value.total_seconds()))', 'value = pack("<d", float(self.value.seconds))', "C01.R2"),
     M("bool-threshold", "cell.py", "cell = BoolCell(row, col, double > 0.0)", "cell = BoolCell(row, col, double > 1.0)", "C01.R2"),
     M("date-other-epoch", "cell.py", "cell = DateCell(row, col, EPOCH + timedelta(seconds=seconds))", "cell = DateCell(row, col, datetime(2001, 1, 1, 0, 0, 1) + timedelta(seconds=seconds))", "C01.R2"),
